@@ -132,7 +132,7 @@ fn main() {
         if cex.viols.is_empty() && pv.is_empty() && cfg.budget.is_some() {
             let cap = cfg.bucketsize * cfg.n_buckets;
             let full = std::env::args().any(|a| a == "thorough");
-            let lim = if full { 1500 } else { 80 };
+            let lim = if full { 250 } else { 80 };
             let starts: Vec<cuckoo::St> = cex.states.iter().filter(|s| s.off == 0 && !s.tainted && s.f.len() + 2 >= cap).take(lim).cloned().collect();
             let r = cuckoo::failure_continuations(&cm, &starts, 1, full);
             fc = (r.0, r.1);
